@@ -6,7 +6,6 @@ CONSTANTS
   MaxCuts = 3
   MaxTruncs = 3
   MaxRestarts = 3
-  AllowKF = TRUE
   EmitMode = "walk"
-INVARIANTS TypeOK ReadYourWriteKF PositionsAgreeKF CutSeqAgreesKF RefMapBounded IterCompleteKF EmitWalk
+INVARIANTS TypeOK ReadYourWrite PositionsAgree CutSeqAgrees NoMismatch RefMapBounded IterComplete EmitWalk
 CHECK_DEADLOCK FALSE
